@@ -91,7 +91,14 @@ class Gen:
         p0 = L(0)
         good = lambda: r.choice(["new", p0, p0])
         any_ = lambda: r.choice(["nil", "new", p0, self.var()])
-        shape = r.randrange(5)
+        shape = r.randrange(7)
+        if shape >= 5:
+            # a join of a path on which nothing is known about the returned value (package-level variable, call result)
+            # with paths that decide it from the parameter (F27: the unknown path was dropped at the join)
+            x = L(1)
+            inner = ("if", ("nonnil", p0), ("assign", x, "new"), ("assign", x, "nil") if shape == 5 or r.random() < 0.5 else ("skip",))
+            return M.seq([("assign", x, self.var() if r.random() < 0.7 else any_()), self.noret_block(r.randint(0, 1)),
+                          ("if", ("opaque",), inner, ("skip",)), ("return", x)])
         if shape == 0:
             return M.seq([("if", ("nonnil", p0), M.seq([self.noret_block(r.randint(0, 2)), ("return", good())]), ("skip",)),
                           self.noret_block(r.randint(0, 2)), ("return", any_())])
